@@ -631,6 +631,12 @@ def encoder_images(ctx):
         open(path, "wb").write(cs)
         out.append((path, 12 if ctx.quick else 40, line))
     ctx.count("encoder-images", len(out))
+    # VarDCT frames (DCT8 blocks, YCbCr, no restoration filter): group / varblock alignment of the region
+    for k, (label, data, _jpeg) in enumerate(fl.synth_vardct(ctx, 3 if ctx.quick else 30, max_blocks=81)):
+        path = os.path.join(d, f"v{k}.jxl")
+        open(path, "wb").write(data)
+        out.append((path, 12 if ctx.quick else 40, "synthetic VarDCT transcode: " + label))
+    ctx.count("vardct-images", min(3 if ctx.quick else 30, len(out)))
     return out
 
 
